@@ -365,17 +365,52 @@ inductive Decision where
   | requeueIn (lo hi : Nat)
 deriving DecidableEq, Repr, Inhabited
 
-/-- the `switch` of runReconcile (:298–334) -/
-def decision (m : Backoff.Map) (k : Nat) (o : Outcome) : Backoff.Map × Decision :=
+/-- the decision points of runReconcile's outcome handling that are NOT written here: parameters of
+    `decisionWith`, instantiated by `genRules` from the regenerated facts of `Cosi.Gen.Queue`. -/
+structure Rules where
+  /-- `case reconcileError != nil`: is the requeue interval taken from the per-item error backoff?
+      Arguments: the error was a `*controller.RequeueError` (`requeued`), the interval it carried
+      (0 when it was not one). -/
+  failBackoff : Bool → Nat → Bool
+
+/-- the rule the code is meant to implement (qruntime.go:309): a failure that brings no interval of
+    its own is retried after the error backoff; an explicit RequeueError interval overrides it -/
+def goodRules : Rules := { failBackoff := fun _ interval => interval == 0 }
+
+/-- the rule of the CURRENT source text. Unrecognised shape ⇒ the worst rule: the error backoff is
+    never consulted, a failure without interval is simply released. -/
+def genRules : Rules :=
+  { failBackoff := fun requeued interval =>
+      match Gen.Queue.outcomeSwitchKnown, Gen.Queue.failBackoffGuard with
+      | true, .intervalZero => interval == 0
+      | true, .notRequeued => !requeued
+      | true, .always => true
+      | _, _ => false }
+
+/-- the `switch` of runReconcile (:298–334) followed by `if interval != 0 { item.Requeue(now + interval) }`
+    (:332); otherwise the deferred `item.Release()` (:251) is all that happens to the item -/
+def decisionWith (r : Rules) (m : Backoff.Map) (k : Nat) (o : Outcome) : Backoff.Map × Decision :=
   let interval := o.requeue.getD 0
   match o.err with
   | .skip => (Backoff.clear m k, if interval ≠ 0 then .requeueIn interval interval else .release)
   | .fail =>
-    if interval = 0 then
-      let r := Backoff.getInterval m k
-      (r.1, if r.2.2 ≠ 0 then .requeueIn r.2.1 r.2.2 else .release)
-    else (m, .requeueIn interval interval)
+    if r.failBackoff o.requeue.isSome interval then
+      let g := Backoff.getInterval m k
+      (g.1, if g.2.2 ≠ 0 then .requeueIn g.2.1 g.2.2 else .release)
+    else (m, if interval ≠ 0 then .requeueIn interval interval else .release)
   | .none => (Backoff.clear m k, if interval ≠ 0 then .requeueIn interval interval else .release)
+
+/-- the model of the current source text -/
+def decision (m : Backoff.Map) (k : Nat) (o : Outcome) : Backoff.Map × Decision :=
+  decisionWith genRules m k o
+
+/-- what the worker sends to the queue loop for the item it holds (key `k`, value `v`) at time `now`,
+    the randomised delay being `d` (any value of the decision's window): `Item.Requeue(now + d)` or,
+    through the deferred `Item.Release()`, a plain release -/
+def Decision.toStep (dec : Decision) (k v now d : Nat) : Step :=
+  match dec with
+  | .release => .release k
+  | .requeueIn _ _ => .requeue k v (now + d)
 
 /-- the backoff map after a history of (key, outcome) reconciles -/
 def runOutcomes (m : Backoff.Map) : List (Nat × Outcome) → Backoff.Map
